@@ -4,10 +4,116 @@ Oracle: both simulators vs the Lean Spec model (which C01 ties to Simulation) on
 trace and on final memory contents; designs include widths across every 64-bit limb boundary.
 Proofs: Proofs/Props/C02.lean (emitted Python expressions of FastSimulation = Spec per op; limb
 arithmetic of the C backend for any number of limbs)."""
+import re
 import pyrtl
+from pyrtl import Input, Output, WireVector, LogicNet
 from vlib import gen
 from vlib.common import proof_gate, conclude
 from checks import c01
+
+
+SRC = r"[^\s()&|<>]+"
+PIECE = re.compile(r"^\((?:(?P<m0>\d+) & (?P<s0>%s)|(?P<s1>%s) >> (?P<k1>\d+)|(?P<m2>\d+) & \((?P<s2>%s) >> (?P<k2>\d+)\))\)$" % (SRC, SRC, SRC))
+
+
+def parse_pieces(expr, arglen):
+    """the emitted `piece|piece|...` of a select net -> [(start, len, res)] (None if not in that shape)"""
+    out = []
+    for part in expr.split('|'):
+        part = part.strip()
+        res = 0
+        m = re.match(r'^\((.*) << (\d+)\)$', part)
+        if m:
+            part, res = m.group(1), int(m.group(2))
+        m = PIECE.match(part)
+        if not m:
+            return None
+        if m.group('m0') is not None:
+            mask, start = int(m.group('m0')), 0
+            ln = mask.bit_length() if mask & (mask + 1) == 0 else None
+        elif m.group('s1') is not None:
+            start = int(m.group('k1'))
+            ln = arglen - start
+        else:
+            mask, start = int(m.group('m2')), int(m.group('k2'))
+            ln = mask.bit_length() if mask & (mask + 1) == 0 else None
+        if ln is None:
+            return None
+        out.append([start, ln, res])
+    return out
+
+
+def select_tie(ctx):
+    """Tie of the hand-modelled loop of the `s` emitter (Model/Sim/FastSim.lean `runs`, `exec`) to the real
+    emitter: the pieces in the generated code and the values FastSimulation computes."""
+    rng = ctx.rng
+    ok_all = True
+    for k in range(ctx.n(150, 3000)):
+        wa = rng.choice([1, 2, 3, 5, 8, 13, 64, 65, 70])
+        idx = []
+        while len(idx) < rng.randint(1, 14):
+            kind = rng.random()
+            start = rng.randrange(wa)
+            if kind < 0.5:
+                idx += list(range(start, min(wa, start + rng.randint(1, 6))))
+            elif kind < 0.75:
+                idx += list(range(start, max(-1, start - rng.randint(1, 5)), -1))
+            else:
+                idx += [start] * rng.randint(1, 3)
+        if rng.random() < 0.3:
+            idx = list(range(rng.randrange(wa), wa))       # a run ending at the top bit
+        dw = len(idx) if rng.random() < 0.7 else rng.randint(1, len(idx))
+        pyrtl.reset_working_block()
+        a = Input(wa, 'a')
+        t = WireVector(dw, 't')
+        pyrtl.working_block().add_net(LogicNet('s', tuple(idx), (a,), (t,)))
+        o = Output(dw, 'o')
+        o <<= t
+        vals = [gen.rand_value(rng, wa) for _ in range(6)]
+        replay = {'kind': 'select-emitter', 'idx': idx, 'wa': wa, 'dw': dw, 'vals': vals}
+        try:
+            sim = pyrtl.FastSimulation()
+            code = sim._compiled()
+            got = []
+            for v in vals:
+                sim.step({'a': v})
+                got.append(sim.inspect('t'))
+        except Exception as e:  # noqa
+            ctx.violation('fast-select-raises', 'FastSimulation raised %s on a select net: %s' % (type(e).__name__, str(e)[:160]), replay)
+            ok_all = False
+            continue
+        resp = ctx.driver.ask({'cmd': 'fsel', 'idx': idx, 'wa': wa, 'dw': dw, 'vals': vals})
+        want = [sum(((v >> b) & 1) << i for i, b in enumerate(idx)) % (1 << dw) for v in vals]
+        if got != want:
+            ctx.violation('fast-select-value', 'FastSimulation select %r of a %d-bit wire into %d bits: values %r, documented selection gives %r' % (
+                idx, wa, dw, got, want), replay)
+            ok_all = False
+            continue
+        model_ok = resp.get('ok') and resp['vals'] == got
+        line = [l for l in code.split('\n') if re.match(r'^\s*t\s*=', l)]
+        pieces = None
+        if len(line) == 1:
+            rhs = line[0].split('=', 1)[1].strip()
+            m = re.match(r'^(\d+) & \((.*)\)$', rhs)
+            masked = m is not None and '|' not in m.group(1)
+            if m and int(m.group(1)) == (1 << dw) - 1:
+                rhs = m.group(2)
+            pieces = parse_pieces(rhs, wa)
+        struct_ok = pieces is not None and resp.get('ok') and pieces == resp['runs']
+        ctx.count('select-tie', 'value+structure' if (model_ok and struct_ok) else ('value-only' if model_ok else 'differs'))
+        if not (model_ok and struct_ok):
+            ok_all = False
+            ctx.extra.setdefault('select_tie_diffs', []).append({'idx': idx, 'wa': wa, 'dw': dw, 'emitted': line[:1],
+                                                                 'pieces': pieces, 'model_runs': resp.get('runs'),
+                                                                 'model_vals': resp.get('vals'), 'real_vals': got})
+        ctx.evaluations += 1
+    ctx.oblige('correspondence:FastSimulation select emitter = Model/Sim/FastSim.lean (pieces and values)', ok_all,
+               json_short(ctx.extra.get('select_tie_diffs', [])[:2]))
+
+
+def json_short(x):
+    import json
+    return json.dumps(x)[:400]
 
 
 def main(ctx):
@@ -45,6 +151,7 @@ def main(ctx):
             ctx.sample({'simulator': simcls.__name__, 'design': desc, 'cycles': len(steps), 'agree': ok})
             if len(ctx.violations) >= 6:
                 break
+    select_tie(ctx)
     for name in agree:
         ctx.oblige('oracle:%s=Spec' % name, agree[name] == total[name], '%d/%d designs agree' % (agree[name], total[name]))
     return conclude(ctx, rule='random designs as in C01 with widths biased to 63/64/65/127/128/129/130 so operands of '
